@@ -11,6 +11,7 @@ mod c11;
 mod c12;
 mod c14;
 mod c15;
+mod c16;
 mod iogen;
 mod distmodel;
 mod c19;
@@ -18,6 +19,7 @@ mod common;
 mod json;
 mod model;
 mod rng;
+mod tfm_ref;
 
 use common::*;
 
@@ -83,6 +85,7 @@ fn main() {
         "C13" => (c12::run13(&cfg), c12::RULE13, c12::REQUIRED13),
         "C14" => (c14::run(&cfg), c14::RULE, c14::REQUIRED),
         "C15" => (c15::run(&cfg), c15::RULE, c15::REQUIRED),
+        "C16" => (c16::run(&cfg), c16::RULE, c16::REQUIRED),
         "C19" => (c19::run(&cfg), c19::RULE, c19::REQUIRED),
         _ => usage(),
     };
